@@ -453,6 +453,12 @@ def run(scn, ch, log=False):
             # premise of this rule: the tail mechanism is involved at all - an upgrade aiohttp knows (any other
             # offer is simply ignored and the pipeline rules above apply) on a request without a body (with an
             # unread body the server may close instead of reading on: lingering)
+            # ... or a handler call from the declined upgrade on ended in a failure (exception, timeout, cancellation,
+            # bad return value), possibly after its response was complete: the server then gives the connection up
+            _behs = scn["behaviours"] or ["read"]
+            _FAIL = ("fail_after", "exc", "timeout", "cancelled", "nonresp", "write_then_raise")
+            if any(_behs[k_ % len(_behs)].split(":")[0] in _FAIL for k_ in range(max(0, len(msgs) - 1), len(obs.seen))):
+                said_close = True
             um = msgs[-1] if msgs else None
             uval = b"".join(v for n, v in (um["headers"] if um else ()) if n.lower() == b"upgrade").strip().lower()
             tail_rule = um is not None and uval in (b"websocket", b"tcp") and not um["body"] and not um.get("chunked")
